@@ -535,6 +535,15 @@ fn k_getters_u64() {
     }
     std::mem::forget(h);
 }
+/// K-ENTRY-IS-PRESENT (bounded: 3 entries): true iff some entry carries the tag
+#[kani::proof]
+#[kani::unwind(6)]
+fn k_entry_is_present() {
+    let (tags, _kinds, _xs, h) = sym_header();
+    let i = first_with(&tags, 278);
+    assert!(h.entry_is_present(IndexSignatureTag::RPMSIGTAG_OPENPGP) == (i < 3));
+    std::mem::forget(h);
+}
 #[kani::proof]
 #[kani::unwind(6)]
 fn k_getters_i18n() {
